@@ -3,6 +3,7 @@
 C11.1  the strictness flag is threaded unchanged: children are called with the method's own ctx
 C11.2  one reader: only the object class (and the facade that builds contexts) reads disallowExtraProperties,
        in the branch without index signature, comparing the input's keys with the class's own declared keys
+C11.4  (shared with C01.7) the printer drops no field of an object shape it rebuilds (index signatures)
 C11.3  conjunctive delegation: a class that hands the same input to several children and requires all of them
        must not let each child judge extra keys against its own key set only
 """
@@ -30,11 +31,26 @@ def run(cx, rep):
     # ---------------------------------------------------------------- C11.1
     rep.rule("C11.1", "children are validated / parsed / reported with the caller's own ctx")
     n_calls = 0
-    for cname, mname, fn in ts_common.family_methods(fam, METHODS):
+    # every function of the module that calls a child's validate / parseAfterValidation / reportDecodeError: the
+    # interface methods themselves (their ctx is their first parameter) and helpers a refactoring may have put the
+    # call into (their ctx is whichever parameter they forward; each of their call sites must in turn pass the
+    # caller's own ctx there)
+    fam_fns = {id(fn): (cname, mname) for cname, mname, fn in ts_common.family_methods(fam, METHODS)}
+    fnlikes = []   # (label, class name or None, function node)
+    facade0 = {c.name for c in mod.classes.values() if "BeffParser" in c.implements}
+    for cname, c in sorted(mod.classes.items()):
+        if cname in facade0:
+            continue   # the facade is where contexts are created (checked below: nobody else builds one)
+        for mname, m in sorted(c.methods.items()):
+            if m["function"].get("body") is not None:
+                fnlikes.append(("%s.%s" % (cname, mname), cname, m["function"]))
+    for fname, d in sorted(mod.functions.items()):
+        if d.get("body") is not None:
+            fnlikes.append((fname, None, d))
+    forwards = {}   # id(helper fn) -> set of parameter indices that carry the ctx
+    for label, cname, fn in fnlikes:
         ps = ts_common.fn_params(fn)
-        if not ps or ps[0] is None:
-            continue
-        ctxname = ps[0]
+        is_fam = id(fn) in fam_fns
         for n in walk(fn):
             if n["type"] != "CallExpression":
                 continue
@@ -43,13 +59,52 @@ def run(cx, rep):
                 continue
             if s(mc[0]) == "super":
                 continue
+            if not is_fam and (cname is None or cname not in fam.classes) and s(mc[0]).startswith("this."):
+                pass
             n_calls += 1
             a0 = unparen(mc[2][0])
-            ok = a0["type"] == "Identifier" and a0["value"] == ctxname
-            rep.ob("C11.1", "%s.%s/%s.%s" % (cname, mname, s(mc[0])[:40], mc[1]), ok,
-                   "%s.%s calls %s.%s with `%s` instead of its own context `%s`: strict mode would be switched %s below this point" % (
-                       cname, mname, s(mc[0]), mc[1], s(a0)[:60], ctxname, "off or on"), mod.loc(n))
-    rep.floor("C11.1", "child calls checked", n_calls, 50)
+            if is_fam:
+                ctxname = ps[0] if ps else None
+                ok = a0["type"] == "Identifier" and a0["value"] == ctxname
+            else:
+                ok = a0["type"] == "Identifier" and a0["value"] in ps
+                if ok:
+                    forwards.setdefault(id(fn), set()).add(ps.index(a0["value"]))
+                ctxname = "one of its parameters"
+            rep.ob("C11.1", "%s/%s.%s" % (label, s(mc[0])[:40], mc[1]), ok,
+                   "%s calls %s.%s with `%s` instead of its own context `%s`: strict mode would be switched %s below this point" % (
+                       label, s(mc[0]), mc[1], s(a0)[:60], ctxname, "off or on"), mod.loc(n))
+    # call sites of ctx-forwarding helpers (to a fixpoint: a helper may call a helper)
+    changed = True
+    checked = set()
+    while changed:
+        changed = False
+        for label, cname, fn in fnlikes:
+            ps = ts_common.fn_params(fn)
+            is_fam = id(fn) in fam_fns
+            for n in walk(fn):
+                if n["type"] != "CallExpression":
+                    continue
+                r = tsast.resolve_local_call(mod, cname, n)
+                if r is None or id(r[0]) not in forwards:
+                    continue
+                args = [a["expression"] for a in n["arguments"]]
+                for i in sorted(forwards[id(r[0])]):
+                    if (id(n), i) in checked:
+                        continue
+                    checked.add((id(n), i))
+                    a = unparen(args[i]) if i < len(args) else {"type": "missing"}
+                    if is_fam:
+                        ok = a.get("type") == "Identifier" and ps and a["value"] == ps[0]
+                    else:
+                        ok = a.get("type") == "Identifier" and a["value"] in ps
+                        if ok and ps.index(a["value"]) not in forwards.get(id(fn), set()):
+                            forwards.setdefault(id(fn), set()).add(ps.index(a["value"]))
+                            changed = True
+                    rep.ob("C11.1", "%s/helper:%s" % (label, s(n["callee"])[:40]), bool(ok),
+                           "%s hands `%s` to %s, which validates children with it, instead of its own context: strict mode would be switched off or on below this point" % (
+                               label, s(a)[:60] if a.get("type") != "missing" else "nothing", s(n["callee"])), mod.loc(n))
+    rep.floor("C11.1", "child calls checked", n_calls, 30)
     # contexts are only built by the facade (object literals carrying the flag)
     builders = set()
     for cname, c in mod.classes.items():
@@ -100,12 +155,29 @@ def run(cx, rep):
                 for i in walk(fn):
                     if i["type"] == "IfStatement" and any(x is nd for x in walk(i["test"])):
                         guard = i
-                txt = "".join(mod.text(guard["consequent"]).split()) if guard else ""
                 ps = ts_common.fn_params(fn)
-                ok2 = ("Object.keys(%s)" % ps[1]) in txt and ".includes(" in txt and ("configKeys" in txt or "Object.keys(this." in txt)
+                # (seen through private helpers, with their parameters replaced by the arguments of the call)
+                gnodes = list(tsast.walk_inl(mod, cname, guard["consequent"])) if guard else []
+                calls_ = [x for x in gnodes if x["type"] == "CallExpression"]
+                keys_of_input = any(s(x["callee"]) == "Object.keys" and x["arguments"] and s(x["arguments"][0]["expression"]) == ps[1] for x in calls_)
+                includes_ = [method_call(x) for x in calls_ if method_call(x) and method_call(x)[1] == "includes"]
+                al = ts_common.local_aliases(fn)
+                def own_keys(e, d=0):
+                    e = unparen(e)
+                    if e.get("type") == "Identifier" and e["value"] in al and d < 3:
+                        return own_keys(al[e["value"]], d + 1)
+                    return e.get("type") == "CallExpression" and s(e["callee"]) == "Object.keys" and e["arguments"] and s(e["arguments"][0]["expression"]).startswith("this.")
+                ok2 = keys_of_input and any(own_keys(mc_[0]) for mc_ in includes_)
+                txt = "; ".join(sorted({s(x)[:60] for x in calls_}))[:200]
                 rep.ob("C11.2", "%s.%s/own-keys" % (cname, mname), ok2,
                        "%s.%s must compare Object.keys(input) with the class's own declared keys" % (cname, mname), mod.loc(nd), sample={"guarded_block": txt[:120]})
     rep.floor("C11.2", "flag readers", len(readers), 2)
+    # ---------------------------------------------------------------- C11.4
+    # (shared with C01.7) an index signature dropped while the printer rebuilds an object validator makes strict mode
+    # reject keys the declared type admits
+    rep.rule("C11.4", "the printer keeps the index signature of every object shape it rebuilds")
+    from rules.c01 import partial_projection_rule
+    partial_projection_rule(cx, rep, "C11.4")
     # ---------------------------------------------------------------- C11.3
     rep.rule("C11.3", "conjunctive delegation counts the keys of all members")
     for cname, mname, fn in ts_common.family_methods(fam, ("validate",)):
